@@ -50,7 +50,9 @@ if [[ -n "${INPUT_MUTATORS:-}" ]]; then
 fi
 
 if [[ -n "${INPUT_MUTATION_RATE:-}" ]]; then
-  args+=(--mutation-rate "${INPUT_MUTATION_RATE}")
+  # "--opt=value": a value that starts with "-" (a negative rate, which the library clamps to
+  # 0.0) would otherwise be taken for another option
+  args+=("--mutation-rate=${INPUT_MUTATION_RATE}")
 fi
 
 if is_true "${INPUT_UNSAFE_MUTATIONS:-}"; then
